@@ -14,19 +14,26 @@ For a pair of independently constructed restrictions (r1, r2), built from harnes
 
 and for REQUIRED_USE DepSets (parsed exactly as ebuild_src.required_use does): equal DepSets have equal hashes and
 accept the same USE sets; find_constraint_satisfaction (lru_cache keyed by the DepSet) yields for d2 the same solution
-set whether or not an equal/similar d1 was compiled before, and that set equals a brute-force evaluation of the
-harness' own AST of the expression (PMS semantics of || ^^ ?? flag? ( )).
+set whether or not an equal/similar d1 was compiled before (bucket required_use:cached-solutions:*).  The solution
+set is also compared with a brute-force evaluation of the harness' own AST (PMS semantics of || ^^ ?? flag? ( )), but a
+difference there is only *counted* (counter solver_differs_from_bruteforce): what the solver should answer is C06/C09/C10's
+business, not this property's.  Operator groups are generated with >= 2 members (single-member groups are collapsed
+by DepSet.parse -- C09's finding).
 
 The oracle never says which restrictions *should* be equal; it only holds the implementation to the consequences of
 its own `==`.  `<type>`/`<what differs>` come from the generator (innermost node that was varied), never from pkgcore.
+
+Observed but outside the statement (counter eq_changed_by_hashing): values._HashedGenericEquality puts the lazily
+cached `_hash` first in __attr_comparison__, so StrExactMatch("a") == StrExactMatch("a", case_sensitive=True) is True,
+becomes False after hash() of only one of them, and True again after hashing both.  Equality is therefore evaluated before
+and after hashing and a pair counts as equal if either says so.
 
 Simplifications vs DESIGN.md: AlwaysBool, Negate, AnyMatch, EqualityMatch use identity equality (nothing to check)
 and are not generated; the "second tier" identity-hash classes (FunctionRestriction, FlatteningRestriction,
 StrConversion) are generated and reported like the others since the statement covers value matchers.
 """
-import itertools
+import re
 
-from hypothesis import strategies as st
 
 from .. import core
 from ..gen import restrpairs as RP
@@ -147,6 +154,7 @@ def check_pair(ctx, env, kind, d1, d2, nocache2):
         del r2a
         # -- r1 alive, then r2 -----------------------------------------------------------------------------------
         r1 = B.build(s1)
+        v1 = env.vec(r1, dom1)  # before r2 exists: atoms build their restriction tuple lazily on first use
         r2 = B.build(s2, nocache2)
         v2 = env.vec(r2, dom2)
         if v2 != v2_alone:
@@ -163,11 +171,10 @@ def check_pair(ctx, env, kind, d1, d2, nocache2):
         if not eq:
             return
         if h1 != h2:
-            ctx.violation(f"hash:{localise(env, 'hash', s1, s2)}", case, f"{r1!r} == {r2!r} but hashes differ")
+            ctx.violation(f"hash:{localise(env, 'hash', s1, s2)}", case, _san(f"{r1!r} == {r2!r} but hashes differ"))
         if dom1 != dom2:
             ctx.count("equal_across_domains")
             return
-        v1 = env.vec(r1, dom1)
         if v1 != v2:
             i = next(i for i, (x, y) in enumerate(zip(v1, v2)) if x != y)
             ctx.violation(f"match:{localise(env, 'match', s1, s2)}", case,
@@ -193,6 +200,14 @@ def check_pair(ctx, env, kind, d1, d2, nocache2):
 def _show(x):
     s = str(x)
     return s if len(s) < 60 else s[:57] + "..."
+
+
+_ADDR = re.compile(r"\s*(?:@\s*#?|at )(?:0x)?[0-9a-f]{6,}")
+
+
+def _san(msg):
+    """object addresses out of messages: reports must not differ between runs"""
+    return _ADDR.sub("", msg)
 
 
 # ---- REQUIRED_USE ----------------------------------------------------------------------------------------------------
@@ -305,9 +320,9 @@ def plan(tier, seed):
     tasks = [{"task": "curated"}]
     if tier == "quick":
         for i in range(11):
-            tasks.append({"task": "hyp", "examples": 1600})
+            tasks.append({"task": "hyp", "examples": 1200})
         for i in range(4):
-            tasks.append({"task": "ru", "examples": 700})
+            tasks.append({"task": "ru", "examples": 600})
     else:
         for i in range(24):
             tasks.append({"task": "hyp", "examples": 30000})
